@@ -4,6 +4,8 @@ import vlib, pipecommon
 
 def key(r):
     why, req, cfg = r["why"], r["req"], r["cfg"]
+    if "taken for a request" in why or "answers" in why and "not this request" in why:
+        return "C04:refused-body-taken-for-request:%s" % req["pos"]
     if "Proxy-Authenticate" in why:
         return "C04:407-without-challenge"
     if "passes every check" in why or "served by" in why or "contacted" in why or "connection opened" in why:
@@ -17,8 +19,8 @@ def key(r):
 def run(ctx):
     q = ctx.tier == "quick"
     ctx.rule = ("TLC enumerates (configuration x request) classes of the Pipeline model - 4 controls on/off x request kind "
-                "(GET, HTTP/1.0, POST, CONNECT, inside MITM) x 16 host spellings x 18 credential shapes x Via x position on "
-                "the connection - with the decision of the first failing control; each case is replayed through a real "
+                "(GET, HTTP/1.0, POST, CONNECT, inside MITM) x 20 host spellings (incl. IPv4-mapped IPv6 loopback / unspecified) x 22 credential shapes x Via x position on "
+                "the connection (first, after a forwarded request, after a refused one with or without a body that reads like a request) - with the decision of the first failing control; each case is replayed through a real "
                 "HTTPProxy with live origins behind every target, a logging dialer and scripted upstream proxy. "
                 "Non-trivial = anything but a first-position plain direct forward.")
     ctx.mc("Pipeline.tla", "MC_Pipeline.cfg")
